@@ -6,9 +6,9 @@ def _c19_units(tier, seed):
         if n <= 0: return
         for p in precs: u.append(dict(dict(variant=variant, module=module, prec=p, start=0, count=n, chunk=chunk), **kw))
     # the lifecycle module under ASan+UBSan (32/64-bit indices), MemorySanitizer and valgrind memcheck
-    add('asan', 'C19', 'sdcz', 1200, 40000, 100)
-    add('asan-i64', 'C19', 'sdcz', 200, 5000, 100)
-    add('msan', 'C19', 'sdcz', 250, 8000, 50)
+    add('asan', 'C19', 'sdcz', 4000, 40000, 100)
+    add('asan-i64', 'C19', 'sdcz', 600, 5000, 100)
+    add('msan', 'C19', 'sdcz', 600, 8000, 50)
     vg = ['valgrind', '-q', '--error-exitcode=95', '--track-origins=no', '--num-callers=12']
     add('plain', 'C19', 'dz', 12, 400, 4, wrapper=vg, env={'VF_NOJUNK': '1'}, cpu=120, wall=1800)
     # other properties' workloads under MemorySanitizer: uninitialised-value clause on drivers, histories, ILU
